@@ -75,6 +75,8 @@ def render(st, rng):
 
 def run(ctx):
     repo.setup()
+    from ..core import quiet_logging
+    quiet_logging()
     from TotalDepth.DAT import DAT_parser
     rng = ctx.subrng('c14')
     extra = ['WAC', 'BDIA'] if ctx.quick else ['WAC', 'BDIA', 'MDIA']
